@@ -5,6 +5,7 @@
 package zzverif
 
 import (
+	"runtime"
 	"time"
 	"encoding/json"
 	"fmt"
@@ -289,6 +290,16 @@ func SetMapOrder(mode int) {}
 // Thorough reports whether the check runs in the thorough tier (harnesses
 // widen their universes then).
 func Thorough() bool { return os.Getenv("VERIF_TIER") == "thorough" }
+
+// PoolFlush empties every sync.Pool (natively: two garbage collections; under the
+// executor the model's pools are cleared).  SingleProc pins the native run to one P so
+// that the runtime's per-P pool caches behave like the model's single list.
+func PoolFlush() {
+	runtime.GC()
+	runtime.GC()
+}
+
+func SingleProc() { runtime.GOMAXPROCS(1) }
 
 // ClockStart / SetClock let a harness drive the node-local wall clock.  Under
 // the executor time.Now returns exactly the instant set here (an arbitrary one
